@@ -5,9 +5,9 @@
 set -u
 SIM=/verif/target/release/pilota-sim
 fail=0
-for prop in C12 C07 C09 C19; do
+for prop in C12 C07 C09 C19 C10; do
   for seed in 20260101 1 77 123456789; do
-    n=40; [ "$prop" = C09 ] && n=6; [ "$prop" = C19 ] && n=6
+    n=40; [ "$prop" = C09 ] && n=6; [ "$prop" = C19 ] && n=6; [ "$prop" = C10 ] && n=12
     a=$($SIM trace --prop $prop --seed $seed --from 0 --to $n 2>&1 | sha256sum)
     b=$($SIM trace --prop $prop --seed $seed --from 0 --to $n 2>&1 | sha256sum)
     c=$(setarch -R $SIM trace --prop $prop --seed $seed --from 0 --to $n 2>&1 | sha256sum)
